@@ -542,6 +542,8 @@ void run_concrete_int(FILE* fp, UnitRec const& u, FN const& fn, const char* tyna
     int cls = k % 4 < 2 ? 0 : (k % 4 == 2 ? 1 : 2);
     if (getenv("VERIF_INT_SMALL")) cls = 0;          // C20 replay: stay inside the colour-depth / no-overflow domain
     for (int i = 0; i < u.nin; ++i) in[i] = gen_int<T>(r, cls);
+    // integer division: a zero divisor (and INT_MIN % -1) is outside the operator's domain and traps on x86
+    if (u.name.find("_mod_") != std::string::npos) for (int i = 0; i < u.nin; ++i) if (in[i] == T(0) || in[i] == T(-1)) in[i] = T(7);
     for (int j = 0; j < u.nout; ++j) out[j] = T(0);
     if (echo_inputs()) { fprintf(stderr, "ECHO %s %s", u.name.c_str(), tyname); for (int i = 0; i < u.nin; ++i) put_bits<T>(stderr, in[i]); fprintf(stderr, "\n"); fflush(stderr); }
     fn(in.data(), out.data());
